@@ -144,7 +144,7 @@ def check_nest(run, M, kind, N, f):
     if not ok_struct:
         return None
     st = ks.stores[0]
-    npts = T.app("getitem", T.app("attr:shape", T.sym("coord"), real=True), T.const(0))
+    npts = T.app("len", T.sym("coord"), real=True)   # coord.shape[0] in the value numbering's spelling
     run.check(ks.loops[0].args == (npts,), "I3", label + " points loop", where, "outer loop over all coord.shape[0] points",
               "outer loop of %s ranges over %s; expected range(coord.shape[0])" % (label, [T.show(a) for a in ks.loops[0].args]), stmt="I3:pts:" + label)
     ax = expected_nest(N, grid_arr, pts_arr, ks.loops)
@@ -239,9 +239,15 @@ def check(run, M, tier, rule_prefix=""):
         # name -> kernel function selection
         vn = VN(M, fact)
         for name, want in (("spline", "sigpy.interp._spline_kernel"), ("kaiser_bessel", "sigpy.interp._kaiser_bessel_kernel")):
-            sel = [s for s in fact.body if isinstance(s, ast.If)]
-            outs = VN(M, fact).run(sel, State({"kernel": T.sym(repr(name), real=True)}))
-            got = {T.show(o.env.get("kernel")) for o in outs}
+            # everything the factory does before it defines the kernels (an if-chain, a helper call, a table lookup ...)
+            sel = []
+            for s_ in fact.body:
+                if isinstance(s_, (ast.FunctionDef, ast.Return)):
+                    break
+                sel.append(s_)
+            pname = fact.params[0]
+            outs = VN(M, fact).run(sel, State({pname: T.sym(repr(name), real=True)}))
+            got = {T.show(o.env.get(pname)) for o in outs if o.status != "raise"}
             run.check(got == {want.split(".")[-1]}, "I6", "%s name %s" % (fq.split(".")[-1], name), fact.loc(), "'%s' selects %s" % (name, want.split(".")[-1]),
                       "kernel name '%s' selects %s in %s; expected %s" % (name, sorted(got), fq.split(".")[-1], want.split(".")[-1]), stmt="I6:name:%s:%s" % (kind, name))
     run.floor("I1", 6, n_k, "interpolation/gridding kernels")
